@@ -26,6 +26,68 @@ theorem fv_child {op : Op} {args : List Term} {p : Payload} {a : Term} {s : Sym}
     s ∈ (Term.node op args p).fv :=
   mem_fv_child op args p a ha s hs hsym (fun _ _ h => by simp [hq] at h)
 
+/-! ## the Boolean skeleton -/
+
+def isConn : Op → Bool
+  | .and | .or | .not | .implies | .iff => true
+  | _ => false
+
+theorem boolNodes_conn {op : Op} (hc : isConn op = true) (args : List Term) (p : Payload) :
+    boolNodes (.node op args p) = (args.map boolNodes).flatten ++ [.node op args p] := by
+  cases op <;> simp [isConn] at hc <;> rw [boolNodes.eq_def]
+
+theorem boolNodes_ite {args : List Term} {p : Payload} (h : ¬ ph (.node .ite args p) = true) :
+    boolNodes (.node .ite args p) = (args.map boolNodes).flatten ++ [.node .ite args p] := by
+  rw [boolNodes.eq_def]; simp [h]
+
+theorem mem_flatten_boolNodes {args : List Term} {a x : Term} (ha : a ∈ args) (hx : x ∈ boolNodes a) :
+    x ∈ (args.map boolNodes).flatten := by
+  simp only [List.mem_flatten, List.mem_map]
+  exact ⟨boolNodes a, ⟨a, ha, rfl⟩, hx⟩
+
+theorem bn_conn {op : Op} {args : List Term} {p : Payload} {a : Term} (hc : isConn op = true) (ha : a ∈ args) :
+    ∀ x ∈ boolNodes a, x ∈ boolNodes (.node op args p) := by
+  intro x hx
+  rw [boolNodes_conn hc]
+  exact List.mem_append_left _ (mem_flatten_boolNodes ha hx)
+
+theorem bn_self {op : Op} {args : List Term} {p : Payload} (hc : isConn op = true) :
+    Term.node op args p ∈ boolNodes (.node op args p) := by
+  rw [boolNodes_conn hc]; simp
+
+theorem bn_ite {args : List Term} {p : Payload} {a : Term} (h : ¬ ph (.node .ite args p) = true) (ha : a ∈ args) :
+    ∀ x ∈ boolNodes a, x ∈ boolNodes (.node .ite args p) := by
+  intro x hx
+  rw [boolNodes_ite h]
+  exact List.mem_append_left _ (mem_flatten_boolNodes ha hx)
+
+theorem bn_self_ite {args : List Term} {p : Payload} (h : ¬ ph (.node .ite args p) = true) :
+    Term.node .ite args p ∈ boolNodes (.node .ite args p) := by
+  rw [boolNodes_ite h]; simp
+
+theorem boolNodes_subterms : (t : Term) → ∀ x ∈ boolNodes t, x ∈ t.subterms
+  | .node op args p => by
+    intro x hx
+    have ih : ∀ a ∈ args, ∀ x ∈ boolNodes a, x ∈ a.subterms := fun a _ => boolNodes_subterms a
+    have key : x ∈ (args.map boolNodes).flatten ++ [.node op args p] → x ∈ (Term.node op args p).subterms := by
+      intro h
+      rcases List.mem_append.mp h with h | h
+      · simp only [List.mem_flatten, List.mem_map] at h
+        obtain ⟨_, ⟨a, ha, rfl⟩, hxa⟩ := h
+        exact subterms_child ha (ih a ha x hxa)
+      · simp only [List.mem_cons, List.mem_nil_iff, or_false] at h
+        subst h; exact subterms_self _
+    by_cases hc : isConn op = true
+    · rw [boolNodes_conn hc] at hx; exact key hx
+    · by_cases hi : op = .ite
+      · subst hi
+        by_cases hph : ph (.node .ite args p) = true
+        · rw [boolNodes.eq_def] at hx; simp [hph] at hx
+        · rw [boolNodes_ite hph] at hx; exact key hx
+      · exfalso
+        rw [boolNodes.eq_def] at hx
+        cases op <;> simp [isConn] at hc hi <;> simp at hx
+
 /-! ## which nodes get a definition symbol -/
 
 theorem wantsKey_and_many {args : List Term} {p : Payload} (h : ∀ a, args = [a] → False) :
@@ -142,18 +204,18 @@ end clauses
 /-! ## completeness of the definitions -/
 
 theorem enc_complete (E : Env) (u : Sym → Option Term) (I : Interp) (hσ : SimpSoundAt E.simp (ext u I)) :
-    (g : Term) → (∀ h ∈ g.subterms, wantsKey h = true → u (E.key h) = some h) → (∀ s ∈ g.fv, u s = none) →
+    (g : Term) → (∀ h ∈ boolNodes g, wantsKey h = true → u (E.key h) = some h) → (∀ s ∈ g.fv, u s = none) →
       tv (ext u I) (enc E g).1 = tv I g ∧ holdsAll (ext u I) (enc E g).2
   | .node op args p => by
     intro hk hf
-    have hself : wantsKey (.node op args p) = true →
+    have hself : Term.node op args p ∈ boolNodes (.node op args p) → wantsKey (.node op args p) = true →
         tv (ext u I) (Term.sym (E.key (.node op args p))) = tv I (.node op args p) :=
-      fun hw => tv_ext_key (hk _ (subterms_self _) hw)
+      fun hm hw => tv_ext_key (hk _ hm hw)
     have hatom : tv (ext u I) (Term.node op args p) = tv I (.node op args p) :=
       (ext_sameOn I _ hf).tv.symm
-    have ih : ∀ a ∈ args, op ≠ .symbol → op.isQuantifier = false →
-        tv (ext u I) (enc E a).1 = tv I a ∧ holdsAll (ext u I) (enc E a).2 :=
-      fun a ha h1 h2 => enc_complete E u I hσ a (fun h hh hw => hk h (subterms_child ha hh) hw)
+    have ih : ∀ a ∈ args, (∀ x ∈ boolNodes a, x ∈ boolNodes (.node op args p)) → op ≠ .symbol →
+        op.isQuantifier = false → tv (ext u I) (enc E a).1 = tv I a ∧ holdsAll (ext u I) (enc E a).2 :=
+      fun a ha hsub h1 h2 => enc_complete E u I hσ a (fun h hh hw => hk h (hsub h hh) hw)
         (fun s hs => hf s (fv_child ha hs h1 h2))
     clear hk hf
     revert hself hatom ih
@@ -161,14 +223,14 @@ theorem enc_complete (E : Env) (u : Sym → Option Term) (I : Interp) (hσ : Sim
     split <;> intro hself hatom ih
     · -- and [a]
       next a =>
-      have := ih a (by simp) (by simp) rfl
+      have := ih a (by simp) (bn_conn rfl (by simp)) (by simp) rfl
       refine ⟨?_, this.2⟩
       rw [this.1, tv_and]; simp
     · -- and as
       rename_i hne
-      have hself := hself (wantsKey_and_many hne)
+      have hself := hself (bn_self rfl) (wantsKey_and_many hne)
       have ih' : ∀ a ∈ args, tv (ext u I) (enc E a).1 = tv I a ∧ holdsAll (ext u I) (enc E a).2 :=
-        fun a ha => ih a ha (by simp) rfl
+        fun a ha => ih a ha (bn_conn rfl ha) (by simp) rfl
       have hall : (args.map (fun a => (enc E a).1)).all (tv (ext u I)) = args.all (tv I) := by
         exact all_map_congr _ _ _ (fun a ha => (ih' a ha).1)
       refine ⟨by rw [hself], ?_⟩
@@ -188,14 +250,14 @@ theorem enc_complete (E : Env) (u : Sym → Option Term) (I : Interp) (hσ : Sim
         exact (ih' a ha).2
     · -- or [a]
       next a =>
-      have := ih a (by simp) (by simp) rfl
+      have := ih a (by simp) (bn_conn rfl (by simp)) (by simp) rfl
       refine ⟨?_, this.2⟩
       rw [this.1, tv_or]; simp
     · -- or as
       rename_i hne
-      have hself := hself (wantsKey_or_many hne)
+      have hself := hself (bn_self rfl) (wantsKey_or_many hne)
       have ih' : ∀ a ∈ args, tv (ext u I) (enc E a).1 = tv I a ∧ holdsAll (ext u I) (enc E a).2 :=
-        fun a ha => ih a ha (by simp) rfl
+        fun a ha => ih a ha (bn_conn rfl ha) (by simp) rfl
       have hany : (args.map (fun a => (enc E a).1)).any (tv (ext u I)) = args.any (tv I) := by
         exact any_map_congr _ _ _ (fun a ha => (ih' a ha).1)
       refine ⟨by rw [hself], ?_⟩
@@ -215,7 +277,7 @@ theorem enc_complete (E : Env) (u : Sym → Option Term) (I : Interp) (hσ : Sim
         exact (ih' a ha).2
     · -- not [a]
       next a =>
-      have iha := ih a (by simp) (by simp) rfl
+      have iha := ih a (by simp) (bn_conn rfl (by simp)) (by simp) rfl
       split
       · next h =>
         have := tv_of_isTrueC (I := ext u I) h
@@ -229,9 +291,9 @@ theorem enc_complete (E : Env) (u : Sym → Option Term) (I : Interp) (hσ : Sim
         · exact ⟨by rw [tv_negLit hσ, iha.1, tv_not], iha.2⟩
     · -- implies [a, b]
       next a b =>
-      have hself := hself (wantsKey_implies a b p)
-      have iha := ih a (by simp) (by simp) rfl
-      have ihb := ih b (by simp) (by simp) rfl
+      have hself := hself (bn_self rfl) (wantsKey_implies a b p)
+      have iha := ih a (by simp) (bn_conn rfl (by simp)) (by simp) rfl
+      have ihb := ih b (by simp) (bn_conn rfl (by simp)) (by simp) rfl
       refine ⟨by rw [hself], ?_⟩
       simp only [holdsAll_append]
       refine ⟨⟨?_, iha.2⟩, ihb.2⟩
@@ -242,9 +304,9 @@ theorem enc_complete (E : Env) (u : Sym → Option Term) (I : Interp) (hσ : Sim
         cases tv I a <;> cases tv I b <;> rfl
     · -- iff [a, b]
       next a b =>
-      have hself := hself (wantsKey_iff a b p)
-      have iha := ih a (by simp) (by simp) rfl
-      have ihb := ih b (by simp) (by simp) rfl
+      have hself := hself (bn_self rfl) (wantsKey_iff a b p)
+      have iha := ih a (by simp) (bn_conn rfl (by simp)) (by simp) rfl
+      have ihb := ih b (by simp) (bn_conn rfl (by simp)) (by simp) rfl
       refine ⟨by rw [hself], ?_⟩
       simp only [holdsAll_append]
       refine ⟨⟨?_, iha.2⟩, ihb.2⟩
@@ -258,10 +320,10 @@ theorem enc_complete (E : Env) (u : Sym → Option Term) (I : Interp) (hσ : Sim
       split
       · exact ⟨hatom, holdsAll_nil⟩
       · next hph =>
-        have hself := hself (wantsKey_ite hph)
-        have ihi := ih i (by simp) (by simp) rfl
-        have iht := ih th (by simp) (by simp) rfl
-        have ihe := ih el (by simp) (by simp) rfl
+        have hself := hself (bn_self_ite hph) (wantsKey_ite hph)
+        have ihi := ih i (by simp) (bn_ite hph (by simp)) (by simp) rfl
+        have iht := ih th (by simp) (bn_ite hph (by simp)) (by simp) rfl
+        have ihe := ih el (by simp) (bn_ite hph (by simp)) (by simp) rfl
         refine ⟨by rw [hself], ?_⟩
         simp only [holdsAll_append]
         refine ⟨⟨⟨?_, ihi.2⟩, iht.2⟩, ihe.2⟩
@@ -276,34 +338,34 @@ theorem enc_complete (E : Env) (u : Sym → Option Term) (I : Interp) (hσ : Sim
 
 /-- either `g` contributes no clause, or its literal is a definition symbol or the negation of one -/
 theorem enc_form (E : Env) (hs : SimpSym E.simp) :
-    (g : Term) → (enc E g).2 = [] ∨ ∃ h ∈ g.subterms, wantsKey h = true ∧
+    (g : Term) → (enc E g).2 = [] ∨ ∃ h ∈ boolNodes g, wantsKey h = true ∧
       ((enc E g).1 = Term.sym (E.key h) ∨ (enc E g).1 = Term.mkNot (Term.sym (E.key h)))
   | .node op args p => by
-    have ih : ∀ a ∈ args, (enc E a).2 = [] ∨ ∃ h ∈ (Term.node op args p).subterms, wantsKey h = true ∧
+    have ih : ∀ a ∈ args, (∀ x ∈ boolNodes a, x ∈ boolNodes (.node op args p)) →
+        (enc E a).2 = [] ∨ ∃ h ∈ boolNodes (Term.node op args p), wantsKey h = true ∧
         ((enc E a).1 = Term.sym (E.key h) ∨ (enc E a).1 = Term.mkNot (Term.sym (E.key h))) :=
-      fun a ha => (enc_form E hs a).imp id (fun ⟨h, hh, e⟩ => ⟨h, subterms_child ha hh, e⟩)
-    have hself := subterms_self (Term.node op args p)
-    revert ih hself
+      fun a _ hsub => (enc_form E hs a).imp id (fun ⟨h, hh, e⟩ => ⟨h, hsub h hh, e⟩)
+    revert ih
     rw [enc.eq_def]; simp only
-    split <;> intro ih hself
-    · exact ih _ (by simp)
-    · next hne => exact Or.inr ⟨_, hself, wantsKey_and_many hne, Or.inl rfl⟩
-    · exact ih _ (by simp)
-    · next hne => exact Or.inr ⟨_, hself, wantsKey_or_many hne, Or.inl rfl⟩
+    split <;> intro ih
+    · exact ih _ (by simp) (bn_conn rfl (by simp))
+    · next hne => exact Or.inr ⟨_, bn_self rfl, wantsKey_and_many hne, Or.inl rfl⟩
+    · exact ih _ (by simp) (bn_conn rfl (by simp))
+    · next hne => exact Or.inr ⟨_, bn_self rfl, wantsKey_or_many hne, Or.inl rfl⟩
     · next a =>
       split
       · exact Or.inl rfl
       · split
         · exact Or.inl rfl
-        · rcases ih a (by simp) with h | ⟨h, hh, hw, e | e⟩
+        · rcases ih a (by simp) (bn_conn rfl (by simp)) with h | ⟨h, hh, hw, e | e⟩
           · exact Or.inl h
           · exact Or.inr ⟨h, hh, hw, Or.inr (by rw [e, negLit_sym hs])⟩
           · exact Or.inr ⟨h, hh, hw, Or.inl (by rw [e, negLit_notSym hs])⟩
-    · exact Or.inr ⟨_, hself, rfl, Or.inl rfl⟩
-    · exact Or.inr ⟨_, hself, rfl, Or.inl rfl⟩
+    · exact Or.inr ⟨_, bn_self rfl, rfl, Or.inl rfl⟩
+    · exact Or.inr ⟨_, bn_self rfl, rfl, Or.inl rfl⟩
     · split
       · exact Or.inl rfl
-      · next hph => exact Or.inr ⟨_, hself, wantsKey_ite hph, Or.inl rfl⟩
+      · next hph => exact Or.inr ⟨_, bn_self_ite hph, wantsKey_ite hph, Or.inl rfl⟩
     · exact Or.inl rfl
 
 theorem isTrueC_sym (k : Sym) : isTrueC (Term.sym k) = false := rfl
@@ -689,7 +751,7 @@ theorem finish_sound (E : Env) (J J' : Interp) (tl : Term) (cs : List Clause)
 /-! ## the two directions for `convert` -/
 
 theorem convert_complete (E : Env) (u : Sym → Option Term) (I : Interp) (t : Term) (R : List Clause)
-    (hk : ∀ h ∈ t.subterms, wantsKey h = true → u (E.key h) = some h) (hf : ∀ s ∈ t.fv, u s = none)
+    (hk : ∀ h ∈ boolNodes t, wantsKey h = true → u (E.key h) = some h) (hf : ∀ s ∈ t.fv, u s = none)
     (hσ : SimpSound E.simp t I) (hR : convert E t = some R) (hI : tv I t = true) :
     holdsAll (ext u I) R := by
   unfold convert at hR
@@ -732,7 +794,7 @@ theorem finish_sound_key (E : Env) (hs : SimpSym E.simp) (t : Term) (J : Interp)
     · simp [tv_mkNot, tv_sym, bind_sym_self]
 
 theorem convert_sound (E : Env) (hs : SimpSym E.simp) (t : Term) (J : Interp) (R : List Clause)
-    (hfresh : ∀ h ∈ t.subterms, wantsKey h = true → E.key h ∉ t.fv) (hσ : SimpSound E.simp t J)
+    (hfresh : ∀ h ∈ boolNodes t, wantsKey h = true → E.key h ∉ t.fv) (hσ : SimpSound E.simp t J)
     (hR : convert E t = some R) (h : holdsAll J R) : tv J t = true := by
   unfold convert at hR
   split at hR
